@@ -334,7 +334,6 @@ func runScenario(d *Driver, sc Scenario, timeout time.Duration, oracle bool, res
 	var descs []string
 	var obs []StepObs
 	armed := false
-	var armedSpec *FaultSpec
 	var firstDiv *Divergence // once set, the model is no longer consulted: the rest of the scenario
 	// is run on the implementation with the specification oracle and the probe only, to look for a
 	// concrete input on which the property itself fails
@@ -364,7 +363,6 @@ func runScenario(d *Driver, sc Scenario, timeout time.Duration, oracle bool, res
 			f.Arm(&fakemc.Fault{Index: s.Fault.Index, Kind: fk, Status: s.Fault.Status})
 			d.Send("fault "+s.Fault.String(), 0)
 			armed = true
-			armedSpec = s.Fault
 			descs = append(descs, "fault "+s.Fault.String())
 			obs = append(obs, StepObs{})
 			continue
@@ -410,19 +408,6 @@ func runScenario(d *Driver, sc Scenario, timeout time.Duration, oracle bool, res
 		if armed {
 			st.L1.Arm(nil)
 			st.L2.Arm(nil)
-			// an error status in answer to the key-less noop that closes a quiet batch is not a
-			// behaviour of any memcached (and leaves the error body unread in the stream): such
-			// plans are skipped, and counted
-			if armedSpec != nil && armedSpec.Kind == "status" {
-				lg := l1
-				if armedSpec.Tier == "L2" {
-					lg = l2
-				}
-				if armedSpec.Index < len(lg) && lg[armedSpec.Index].Op == "noop" {
-					d.Send("nofault", 0)
-					return nil, true, obs
-				}
-			}
 		}
 		if now0 != now1 && ending != "hang" {
 			// (a client left waiting for the whole timeout is a finding, not a clock artefact)
